@@ -31,10 +31,10 @@ package icmp
 //@ pred icmpchain(d []gopacket.LayerType) = (len(d) == 3 && d[0] == layers.LayerTypeEthernet && d[1] == layers.LayerTypeIPv4 && d[2] == layers.LayerTypeICMPv4)
 //@        || (len(d) == 2 && d[0] == layers.LayerTypeIPv4 && d[1] == layers.LayerTypeICMPv4)
 //@ func validPacket
-//@   props C06 C03 C14 C16
+//@   props C06 C03 C14 C16 C20
 //@   ensures ret <==> icmpchain(decoded)
 //@ func (*PacketProcessor).ProcessPacketData
-//@   props C06 C03 C16 C14
+//@   props C06 C03 C16 C14 C20
 //@   observe DecodeLayers, String, Type, Code, Put
 //@   entry row undecodable: [call DecodeLayers(p.parser, data, _) as (e)] when e != nil && ret == e -> exit
 //@   entry row otherframe:  [call DecodeLayers(p.parser, data, _) as (e)] when e == nil && !icmpchain(p.rcvDecoded) && ret == nil -> exit
@@ -57,7 +57,7 @@ package icmp
 //@      && ip.Id == 1 + id0 && 1 <= ip.Id && ip.Id <= 65535 && ip.TTL == f.ttl && ip.Flags == f.flags && ip.Length == f.length && ip.Protocol == f.proto
 //@ pred ethhdr(e *layers.Ethernet, r *scan.Request) = fresh(e) && e.SrcMAC == r.SrcMAC && e.DstMAC == r.DstMAC && e.EthernetType == 2048
 //@ func (*PacketFiller).Fill
-//@   props C05 C11 C17 C01 C02 C19
+//@   props C05 C11 C17 C01 C02 C19 C07
 //@   observe rand.Intn, layers.CreateICMPv4TypeCode, gopacket.SerializeLayers
 //@   entry row vpn:   [call rand.Intn(65535) as (id0) ; call rand.Intn(65535) as (id1) ; call layers.CreateICMPv4TypeCode(f.typ, f.code) as (tc) ; call gopacket.SerializeLayers(packet, bind_opt, bind_ls) as (se)]
 //@                       when f.vpnMode && ret == se && opt.ComputeChecksums && (opt.FixLengths <==> f.length == 0) && len(ls) == 3
@@ -107,7 +107,7 @@ package icmp
 // constructor: defaults (TTL 64, protocol ICMP, don't-fragment, echo request, 48 random payload bytes) are set BEFORE
 // the options run, then the options in order, nothing afterwards (so an explicitly requested empty payload stays empty)
 //@ func NewPacketFiller
-//@   props C05 C01 C02 C11 C17 C19
+//@   props C05 C01 C02 C11 C17 C19 C07
 //@   observe rand.Read, o
 //@   entry row init:  [call rand.Read(bind_p)] when len(p) == 48 -> loop 0
 //@   loop 0 row apply: [call o(bind_x)] when fresh(x) -> continue
@@ -115,7 +115,7 @@ package icmp
 
 // C06: parser registration (see pkg/scan/arp): first layer Ethernet, or IPv4 in VPN mode; own Ethernet/IPv4/ICMPv4 structs
 //@ func NewPacketProcessor
-//@   props C06 C03 C14 C16
+//@   props C06 C03 C14 C16 C20
 //@   observe gopacket.NewDecodingLayerParser
 //@   entry row eth: [call gopacket.NewDecodingLayerParser(layers.LayerTypeEthernet, bind_ds) as (pr)]
 //@                     when !vpnMode && len(ds) == 3 && isptr(ds[0], layers.Ethernet) && asptr(ds[0], layers.Ethernet) == addr(ret.rcvEth) && isptr(ds[1], layers.IPv4) && asptr(ds[1], layers.IPv4) == addr(ret.rcvIP)
@@ -124,7 +124,7 @@ package icmp
 //@                     when vpnMode && len(ds) == 3 && isptr(ds[0], layers.Ethernet) && asptr(ds[0], layers.Ethernet) == addr(ret.rcvEth) && isptr(ds[1], layers.IPv4) && asptr(ds[1], layers.IPv4) == addr(ret.rcvIP)
 //@                       && isptr(ds[2], layers.ICMPv4) && asptr(ds[2], layers.ICMPv4) == addr(ret.rcvICMP) && ret.parser == pr && pr.IgnoreUnsupported && !pr.IgnorePanic && ret.results == results && ret.scanType == scanType -> exit
 //@ func NewScanMethod
-//@   props C06 C03 C14 C16
+//@   props C06 C03 C14 C16 C20
 //@   observe NewPacketProcessor
 //@   entry row build: [call NewPacketProcessor("icmp", results, vpnMode) as (pp)] when ret.PacketSource == psrc && isptr(ret.Processor, PacketProcessor) && asptr(ret.Processor, PacketProcessor) == pp
 //@                       && isptr(ret.Resulter, PacketProcessor) && asptr(ret.Resulter, PacketProcessor) == pp -> exit
@@ -135,15 +135,15 @@ package icmp
 
 // the scan method is the plain composition of its three parts: each role is forwarded unchanged
 //@ func (*ScanMethod).Packets
-//@   props C01 C07 C05 C11 C13 C16 C19
+//@   props C01 C07 C05 C11 C13 C16 C19 C12
 //@   observe Packets
 //@   entry row forward: [call Packets(recv.PacketSource, _, _) as (c)] when ret == c -> exit
 //@ func (*ScanMethod).ProcessPacketData
-//@   props C03 C06 C16 C14
+//@   props C03 C06 C16 C14 C20
 //@   observe ProcessPacketData
 //@   entry row forward: [call ProcessPacketData(recv.Processor, _, _) as (e)] when ret == e -> exit
 //@ func (*ScanMethod).Results
-//@   props C03 C14 C16 C06 C08 C20
+//@   props C03 C14 C16 C06 C08 C20 C09 C10 C11 C12
 //@   observe Results
 //@   entry row forward: [call Results(recv.Resulter) as (c)] when ret == c -> exit
 
@@ -182,6 +182,6 @@ package icmp
 //@   ensures closureof(ret, "WithVPNmode$1") && capt(ret, "vpnMode") == vpnMode
 
 //@ func (*PacketProcessor).Results
-//@   props C03 C14 C16 C06 C08 C20
+//@   props C03 C14 C16 C06 C08 C20 C09 C10 C11 C12
 //@   observe Chan
 //@   entry row chan: [call Chan(p.results) as (c)] when ret == c -> exit
